@@ -9,12 +9,14 @@ Inductive act :=
                                                        would create / update to; t1,t2 = what the engine's oracle answered (environment) *)
 | AOp (c : cid) (o : hop)
 | AList (c : cid)
+| AGet (c : cid) (t : N)                            (* a standby polls the lock: resourceLock.Get() without acquiring (t = oracle answer) *)
 | ARestart.                                         (* the engine is closed and reopened on the same files (Badger only) *)
 
 Inductive aobs :=
 | OElect (r : eres) (g w : res) (dump : dstore) (lockb : option bytes)   (* outcome; error classes of Get and of Create/Update; decoded raw engine content afterwards *)
 | OOp (r : hres)
 | OList (hdr : N) (kvs : list (bytes * bytes * N))
+| OGet (r : res)
 | ORestart.
 
 Record c15_case := mkC15 { c_engine : engine; c_script : list (act * aobs) }.
@@ -53,6 +55,9 @@ Definition m_step (e : engine) (s : mstate) (a : act) : mstate * aobs :=
   | AList c =>
       let rev := committed (p_lead (m_p s c)) in
       (s, OList rev (list_at (w_data (m_w s)) rev))
+  | AGet c t =>
+      let g := do_get (w_lock (m_w s)) (p_lock (m_p s c)) GOk (TOk (clock e (m_w s) t)) in
+      (mkM (m_w s) (upd (m_p s) c (mkP (o_cand g) (p_lead (m_p s c)))), OGet (o_res g))
   | ARestart => (mkM (restart e (m_w s)) (m_p s), ORestart)
   end.
 
@@ -62,6 +67,7 @@ Definition aobs_eqb (a b : aobs) : bool :=
       eres_eqb r r' && res_eqb g g' && res_eqb w w' && dstore_eqb d d' && opt_eqb beqb l l'
   | OOp r, OOp r' => hres_eqb r r'
   | OList h k, OList h' k' => (h =? h') && list_eqb kv_eqb k k'
+  | OGet r, OGet r' => res_eqb r r'
   | ORestart, ORestart => true
   | _, _ => false
   end.
@@ -101,7 +107,7 @@ Definition guarded_true (d : dstore) (o : hop) : bool :=
   | _ => false
   end.
 Definition act_cid (a : act) : cid :=
-  match a with AElect c _ _ _ _ _ | AOp c _ | AList c => c | ARestart => 0 end.
+  match a with AElect c _ _ _ _ _ | AOp c _ | AList c | AGet c _ => c | ARestart => 0 end.
 
 Definition o15_step (s : ost15) (x : act * aobs) : option ost15 :=
   match x with
@@ -128,6 +134,7 @@ Definition o15_step (s : ost15) (x : act * aobs) : option ost15 :=
       | None => Some s
       end
   | (ARestart, ORestart) => Some s
+  | (AGet _ _, OGet _) => Some s
   | _ => None          (* an observation of the wrong shape *)
   end.
 
